@@ -381,6 +381,7 @@ class Loopback(worlds.World):
         self.spawn(drv())
         self.loop.settle()
         raw = bytes(self.t_tx.written[n0:])
+        self.last_raw = raw
         if "exc" in res:
             return f"send() raised {type(res['exc']).__name__}: {res['exc']}"
         if not raw:
@@ -421,6 +422,8 @@ def run_chunk(job):
     bad = {}
     classes = {}
     ids = set()
+    digests = set()
+    import hashlib
     for i, (label, m) in enumerate(gen_fn(tier)):
         if i % nchunks != k:
             continue
@@ -429,13 +432,17 @@ def run_chunk(job):
         p = size_problem(gen, lb.reg, m)
         if p is None:
             p = lb.roundtrip(m)
+            if p is None:
+                # distinct = distinct payloads actually framed and parsed back (the packet id is left out)
+                raw = lb.last_raw
+                digests.add(hashlib.blake2b(raw[:4] + raw[5:-2] if gen == 4 else raw[:16] + raw[17:-2], digest_size=8).digest())
         if p:
             sig = f"at{gen}:{label}:" + ("size" if "size" in p else "roundtrip")
             if sig not in bad:
                 bad[sig] = f"{m!r}: {p}"[:700]
             if p.startswith("HARNESS"):
                 lb = Loopback(gen)
-    return n, classes, bad
+    return n, classes, bad, digests
 
 
 def replay_input(rp):
@@ -454,8 +461,10 @@ def run(tier, seed, part=None):
     res = explorer.pool().map(run_chunk, jobs, chunksize=1)
     total = 0
     classes = {4: {}, 5: {}}
-    for job, (n, cl, bad) in zip(jobs, res):
+    distinct = set()
+    for job, (n, cl, bad, dg) in zip(jobs, res):
         total += n
+        distinct |= {(job[0], d) for d in dg}
         for k, v in cl.items():
             classes[job[0]][k] = classes[job[0]].get(k, 0) + v
         for sig, msg in bad.items():
